@@ -606,6 +606,8 @@ func dsLoad(mode string, w any) (scopes map[string]schema.Type, again any, err e
 		var sc *schema.SchemaSchema
 		if mode == "hello" {
 			sc, err = dsReadSchema(w)
+		} else if mode == "hello1" {
+			sc, err = dsReadSchemaV(w, 1) // a server of protocol version 1 sending the same description
 		} else if mode == "hellobytes" {
 			sc, err = atp.NewClient(&dsFakeServer{r: bytes.NewReader(w.([]byte))}).ReadSchema()
 		} else {
@@ -694,6 +696,28 @@ func dsChild(workPath string, from int) {
 		})
 		say(dsChildLine{Kind: "load", ID: w.ID, Load: &load})
 		if load.R == "ok" && again != nil {
+			if w.Mode == "hello" || w.Mode == "hello1" {
+				// whatever protocol version the hello announces, ReadSchema returns what UnserializeSchema
+				// makes of the description the message carries
+				cmp := hx.Guard(func() hx.Result {
+					c, err := dsCBOR(w.V.ToGo())
+					if err != nil {
+						return hx.Result{R: "ok", V: hx.Enc(again)}
+					}
+					sc, err := schema.UnserializeSchema(c)
+					if err != nil {
+						return hx.ErrResult(err)
+					}
+					d, err := sc.SelfSerialize()
+					if err != nil {
+						return hx.ErrResult(err)
+					}
+					return dsOK(d)
+				})
+				if cmp.R != "ok" || hx.Canon(cmp.V) != hx.Canon(hx.Enc(again)) {
+					say(dsChildLine{Kind: "check", ID: w.ID, What: "ReadSchema (mode " + w.Mode + ") returns another schema than UnserializeSchema of the description the hello message carries (" + cmp.R + ")"})
+				}
+			}
 			dsExercise(w, scopes, again, say)
 		}
 		timer.Stop()
@@ -1223,6 +1247,9 @@ func dsRebuildCmd(a Args) {
 			dv := hx.Enc(desc)
 			if i%10 == 9 {
 				mode = "hello"
+				if i%20 == 19 {
+					mode = "hello1"
+				}
 			}
 			mutants(mode, dv, "plugin", 10, 3)
 			// the hello message corrupted at the byte level: one text (a unit name if there is one, else
@@ -1298,7 +1325,7 @@ func dsRebuildCmd(a Args) {
 	// hello mode carries the description over CBOR: values that cannot be encoded cannot be sent
 	kept := work[:0]
 	for _, w := range work {
-		if w.Mode == "hello" {
+		if w.Mode == "hello" || w.Mode == "hello1" {
 			if _, err := dsCBOR(w.V.ToGo()); err != nil {
 				s.count("skipped:hello-not-encodable")
 				continue
@@ -1409,7 +1436,7 @@ func dsWitnessesC10(add func(mode string, v *hx.Val, note string)) {
 				kv("F", obj("F", kv("f", prop(strT, opt)), kv("g", prop(strT, opt))))))))
 		return m(kv("steps", m(kv("s", st))))
 	}
-	for _, mode := range []string{"schema", "hello"} {
+	for _, mode := range []string{"schema", "hello", "hello1"} {
 		add(mode, sameKey(handlerData(ref("Item"), "Root")), "witness: handler and emitter share a key; the handler's data schema has a reference (valid)")
 		add(mode, sameKey(handlerData(ref("Nope"), "Root")), "witness: handler and emitter share a key; dangling reference in the handler's data schema")
 		add(mode, sameKey(handlerData(ref("Item"), "Gone")), "witness: handler and emitter share a key; the handler's data schema has no root object")
@@ -1478,7 +1505,7 @@ func dsSupervise(s *dsSink, work []dsWork, workPath string) {
 		emitLoad := func(w dsWork, r hx.Result) int {
 			mode := w.Mode
 			v := w.V
-			if mode == "hello" {
+			if mode == "hello" || mode == "hello1" {
 				mode = "schema"
 				if c, err := dsCBOR(w.V.ToGo()); err == nil {
 					v = hx.Enc(c)
@@ -1549,6 +1576,10 @@ func dsSupervise(s *dsSink, work []dsWork, workPath string) {
 				}
 			case "check":
 				s.count("link-problem")
+				if strings.HasPrefix(l.What, "ReadSchema (") {
+					s.finding(dsFinding{Prop: "C09", What: l.What, Cases: []int{loadCase}, Input: w.V, Detail: []string{w.Note}})
+					continue
+				}
 				s.finding(dsFinding{Prop: "C10", What: "a returned schema is not completely linked: " + l.What, Cases: []int{loadCase}, Input: w.V, Detail: []string{w.Note}})
 			case "done":
 				doneUpTo = l.ID + 1
